@@ -243,9 +243,10 @@ def batch_real_scan(scratch, sources, ignore_nosec=False, profile=None, config_f
     mgr.discover_files(paths)
     mgr.run_tests()
     logs = take_log()
-    by = {p: {"findings": [], "errors": [], "skipped": None, "path": p} for p in paths}
+    by = {p: {"findings": [], "errors": [], "skipped": None, "path": p, "texts": []} for p in paths}
     for r in mgr.results:
         by[r.fname]["findings"].append(finding_tuple(r))
+        by[r.fname]["texts"].append((r.test_id, r.lineno, r.text))
     for name, reason in mgr.skipped:
         if name in by:
             by[name]["skipped"] = reason
